@@ -159,9 +159,14 @@ func (e *Engine) implementers(t types.Type) []types.Type {
 		if _, isIface := n.Underlying().(*types.Interface); isIface {
 			continue
 		}
-		if types.Implements(n, it) {
+		// struct types are used through pointers (value structs boxed into repository interfaces
+		// are checked for separately by the boxing sweep); other named types by value
+		_, isStruct := n.Underlying().(*types.Struct)
+		if p := types.NewPointer(n); isStruct && types.Implements(p, it) {
+			out = append(out, p)
+		} else if types.Implements(n, it) {
 			out = append(out, n)
-		} else if p := types.NewPointer(n); types.Implements(p, it) {
+		} else if types.Implements(p, it) {
 			out = append(out, p)
 		}
 	}
@@ -193,35 +198,36 @@ type Oblig struct {
 }
 
 type VC struct {
-	eng       *Engine
-	fn        *ssa.Function
-	c         *Contract
-	mode      string
-	noOvf     bool
-	script    []string
-	obls      []*Oblig
-	n         int
-	epN       int
-	comps     map[string]*Comp
-	compOrder []string
-	noName    int
-	specMode  int
-	writeLog  map[string]bool
-	externs   map[string]bool
-	inlined   map[string]bool
-	callsBy   map[string]bool
-	oblNames  map[string]int
-	entry     *State
-	lemmasUse map[string]bool
-	curPos    string
-	ghostEvt  map[string]int
-	notes     []string
-	maxDepth  int
-	modelVals []string // terms worth reporting in counterexamples
-	modelLbl  map[string]string
-	iters     map[*ssa.Range]*iterState
-	defs      map[string]string
-	boxOrigin map[string]*Val
+	eng         *Engine
+	fn          *ssa.Function
+	c           *Contract
+	mode        string
+	noOvf       bool
+	script      []string
+	obls        []*Oblig
+	n           int
+	epN         int
+	comps       map[string]*Comp
+	compOrder   []string
+	noName      int
+	specMode    int
+	writeLog    map[string]bool
+	externs     map[string]bool
+	inlined     map[string]bool
+	callsBy     map[string]bool
+	oblNames    map[string]int
+	entry       *State
+	lemmasUse   map[string]bool
+	curPos      string
+	ghostEvt    map[string]int
+	notes       []string
+	maxDepth    int
+	modelVals   []string // terms worth reporting in counterexamples
+	modelLbl    map[string]string
+	iters       map[*ssa.Range]*iterState
+	defs        map[string]string
+	inlineCount int
+	boxOrigin   map[string]*Val
 }
 
 func newVC(e *Engine, fn *ssa.Function, c *Contract) *VC {
